@@ -1405,6 +1405,13 @@ impl<'a> Ev<'a> {
                             (Val::Atom(f), Val::Atom(g)) => F::Or(vec![F::And(vec![f.clone(), g.clone()]), F::And(vec![F::Not(Box::new(f.clone())), F::Not(Box::new(g.clone()))])]),
                             (Val::Sym { ty, path }, Val::Enum { var, args, .. }) | (Val::Enum { var, args, .. }, Val::Sym { ty, path }) if args.is_empty() && ty.name().map(|n| self.ix.enums.contains_key(n)).unwrap_or(false) => F::A(format!("{path} is {var}")),
                             (Val::Str(a), Val::Str(b)) => if a == b { F::T } else { F::Fl },
+                            // a symbolic string against a literal: the same atom a literal pattern uses (`<value>=="lit"`)
+                            (Val::Str(a), o @ (Val::Sym { .. } | Val::Opaque { .. })) | (o @ (Val::Sym { .. } | Val::Opaque { .. }), Val::Str(a)) => {
+                                let prefix = format!("{}==", o.short().chars().take(80).collect::<String>());
+                                let atom = format!("{prefix}{a:?}");
+                                // string literals are mutually exclusive
+                                if s2.cond.iter().any(|(k, b)| *b && k.starts_with(&prefix) && *k != atom) { F::Fl } else { F::A(atom) }
+                            }
                             (Val::Enum { var: a, args: aa, .. }, Val::Enum { var: b, args: ba, .. }) if aa.is_empty() && ba.is_empty() => if a == b { F::T } else { F::Fl },
                             (Val::Tuple(a), Val::Tuple(b)) if a.len() == b.len() && a.iter().chain(b.iter()).all(|x| matches!(x, Val::Bool(_))) => {
                                 if a.iter().zip(b).all(|(x, y)| x.short() == y.short()) { F::T } else { F::Fl }
